@@ -65,7 +65,10 @@ CLI_SOLVERS = [
 def _smt2_text(assertions) -> str:
     s = z3.Solver()
     s.add(*assertions)
-    return s.to_smt2()
+    # z3's simplifier leaves its internal in-range / out-of-range variants of seq.nth in terms;
+    # nth(s,i) == ite(0 <= i < len s, nth_i(s,i), nth_u(s,i)) and each variant only occurs under its
+    # guard, so writing both back as seq.nth is exact and lets every solver parse the text.
+    return s.to_smt2().replace("seq.nth_i", "seq.nth").replace("seq.nth_u", "seq.nth")
 
 
 def _run_cli(text: str, timeout: int):
@@ -122,20 +125,100 @@ def _scratch():
     return d
 
 
+def _py_value(v):
+    """Python value of a z3 model value (ints, bools, rationals, Seq Int)."""
+    if z3.is_int_value(v):
+        return v.as_long()
+    if z3.is_true(v):
+        return True
+    if z3.is_false(v):
+        return False
+    if z3.is_rational_value(v):
+        return {"num": v.numerator_as_long(), "den": v.denominator_as_long()}
+    if z3.is_seq(v):
+        vals = _const_seq(z3.simplify(v))
+        if vals is not None:
+            return {"seq": vals}
+    return {"repr": str(v)[:200]}
+
+
+def _isolated_check(assertions, timeout_s, want_model):
+    """Run one in-process z3 query in a forked child with a hard deadline.
+    z3's own timeout is not honoured in some sequence-solver phases (e.g. a
+    model with a length of 2**32), and a native call cannot be interrupted, so
+    the query runs in a copy of this process that can be killed.  Returns
+    (verdict, model-dict-or-None)."""
+    import json as _json
+    import select
+    import signal
+    r, w = os.pipe()
+    pid = os.fork()
+    if pid == 0:
+        code = 0
+        try:
+            os.close(r)
+            s = z3.Solver()
+            s.set("timeout", int(timeout_s * 1000))
+            s.add(*assertions)
+            res = s.check()
+            out = {"r": "sat" if res == z3.sat else "unsat" if res == z3.unsat else "unknown"}
+            if res == z3.sat and want_model:
+                m = s.model()
+                out["model"] = {d.name(): _py_value(m[d]) for d in m.decls() if d.arity() == 0}
+                out["text"] = str(m)[:3000]
+            os.write(w, _json.dumps(out).encode())
+        except BaseException:
+            code = 1
+        finally:
+            os._exit(code)
+    os.close(w)
+    data = b""
+    deadline = time.time() + timeout_s + 1.5
+    try:
+        while True:
+            left = deadline - time.time()
+            if left <= 0:
+                break
+            ready, _, _ = select.select([r], [], [], left)
+            if not ready:
+                break
+            chunk = os.read(r, 65536)
+            if not chunk:
+                break
+            data += chunk
+    finally:
+        os.close(r)
+        try:
+            os.kill(pid, signal.SIGKILL)
+        except ProcessLookupError:
+            pass
+        try:
+            os.waitpid(pid, 0)
+        except ChildProcessError:
+            pass
+    if not data:
+        return "unknown", None
+    try:
+        out = _json.loads(data.decode())
+    except ValueError:
+        return "unknown", None
+    model = out.get("model")
+    if model is not None:
+        model = dict(model)
+        model["__text__"] = out.get("text", "")
+    return out["r"], model
+
+
 def solve(assertions, timeout_s: float = 5.0, want_model=False, cli=True):
     """Decide satisfiability of the conjunction.  Returns (verdict, backend,
-    model-or-None); verdict in {'sat','unsat','unknown'}."""
+    model-or-None); verdict in {'sat','unsat','unknown'}; a model is a dict
+    symbol name -> Python value."""
     t0 = time.time()
-    s = z3.Solver()
-    s.set("timeout", int(min(timeout_s, 3.0) * 1000))
-    s.add(*assertions)
-    r = s.check()
-    if r == z3.unsat:
+    inproc = min(timeout_s, 4.0)
+    r, model = _isolated_check(assertions, inproc, want_model)
+    if r in ("sat", "unsat"):
         STATS.note("z3py-5.1.0", time.time() - t0)
-        return "unsat", "z3py-5.1.0", None
-    if r == z3.sat:
-        STATS.note("z3py-5.1.0", time.time() - t0)
-        return "sat", "z3py-5.1.0", (s.model() if want_model else None)
+        return r, "z3py-5.1.0", model
     if not cli:
         STATS.note("z3py-5.1.0", time.time() - t0)
         return "unknown", "z3py-5.1.0", None
@@ -144,11 +227,9 @@ def solve(assertions, timeout_s: float = 5.0, want_model=False, cli=True):
     model = None
     if verdict == "sat" and want_model:
         # try once more in-process with a longer budget for a model
-        s2 = z3.Solver()
-        s2.set("timeout", int(timeout_s * 1000))
-        s2.add(*assertions)
-        if s2.check() == z3.sat:
-            model = s2.model()
+        r2, model = _isolated_check(assertions, timeout_s, True)
+        if r2 != "sat":
+            model = None
     return verdict, who, model
 
 
@@ -673,6 +754,8 @@ def pow2(t):
     """2**t for symbolic t >= 0; axiomatised lazily: pow2(t) >= 1,
     pow2(t) == 2*pow2(t-1) for t >= 1, pow2(0) == 1."""
     c = ctx()
+    from . import spec
+    spec.register_pow2(_POW2)  # so that counter-models are confirmed against the recursive definition
     c.assume(z3.Implies(t >= 1, _POW2(t) == 2 * _POW2(t - 1)))
     c.assume(z3.Implies(t >= 1, _POW2(t - 1) >= 1))
     c.assume(z3.Implies(t == 0, _POW2(t) == 1))
@@ -1296,6 +1379,17 @@ def fresh_list(name, elem="val"):
     return SList(t, elem)
 
 
+def at(s, i):
+    """Element i of a bytes value for use in specifications: total (no
+    IndexError fork); unspecified when i is out of range."""
+    if not is_sym(s) and not is_sym(i):
+        return s[i] if -len(s) <= i < len(s) else -1
+    t = seq_term(s)
+    n = z3.Length(t)
+    e = z3.simplify(t[norm_index(i, n)])
+    return mk_num(e)
+
+
 def all_bytes(s, pred):
     """Universally quantified statement over the elements of a sequence:
     pred receives an SInt and returns a boolean.  For concrete sequences it
@@ -1307,21 +1401,23 @@ def all_bytes(s, pred):
     return SBool(z3.ForAll([i], z3.Implies(z3.And(i >= 0, i < z3.Length(s.term)), body)))
 
 
-def model_value(model, kind, term):
-    """Concrete Python value of an input symbol under a z3 model."""
-    v = model.eval(term, model_completion=True)
+def model_value(model, kind, name):
+    """Concrete Python value of input symbol `name` under a model dict."""
+    v = model.get(name)
     if kind == "int":
-        return v.as_long()
+        return v if isinstance(v, int) and not isinstance(v, bool) else 0
     if kind == "bool":
-        return z3.is_true(v)
+        return bool(v) if isinstance(v, bool) else False
     if kind == "real":
-        if z3.is_rational_value(v):
-            return v.numerator_as_long() / v.denominator_as_long()
-        return float(v.as_decimal(12).rstrip("?"))
+        if isinstance(v, dict) and "num" in v:
+            return v["num"] / v["den"]
+        if isinstance(v, int):
+            return float(v)
+        return 0.0
     if kind in ("bytes", "str"):
-        vals = _const_seq(z3.simplify(v))
+        vals = v.get("seq") if isinstance(v, dict) else None
         if vals is None:
-            return None
+            vals = []
         if kind == "bytes":
             return bytes([x % 256 for x in vals])
         return "".join(chr(x % 0x110000) for x in vals)
